@@ -2,6 +2,7 @@ use std::io::{self, Read};
 
 use noodles_vcf::{self as vcf, variant::RecordBuf};
 
+use super::record::read_site_length;
 use crate::io::reader::num::read_u32_le;
 
 pub(super) fn read_record_buf<R>(
@@ -15,10 +16,11 @@ where
 {
     use crate::record::codec::decoder::{read_samples, read_site};
 
-    let l_shared = match read_u32_le(reader) {
-        Ok(n) => usize::try_from(n).map_err(|e| io::Error::new(io::ErrorKind::InvalidData, e))?,
-        Err(ref e) if e.kind() == io::ErrorKind::UnexpectedEof => return Ok(0),
-        Err(e) => return Err(e),
+    // A stream that ends at a record boundary is the end of input; one that ends inside
+    // `l_shared` is truncated.
+    let l_shared = match read_site_length(reader)? {
+        0 => return Ok(0),
+        n => n,
     };
 
     let l_indiv = read_u32_le(reader).and_then(|n| {
@@ -38,4 +40,33 @@ where
         .map_err(|e| io::Error::new(io::ErrorKind::InvalidData, e))?;
 
     Ok(l_shared + l_indiv)
+}
+
+#[cfg(test)]
+mod tests {
+    use super::*;
+
+    #[test]
+    fn test_read_record_buf_with_truncated_site_length() -> io::Result<()> {
+        let header = vcf::Header::default();
+        let mut buf = Vec::new();
+        let mut record = RecordBuf::default();
+
+        let src = [];
+        assert_eq!(
+            read_record_buf(&mut &src[..], &header, &mut buf, &mut record)?,
+            0
+        );
+
+        for src in [&[0x08][..], &[0x08, 0x00][..], &[0x08, 0x00, 0x00][..]] {
+            let mut reader = src;
+
+            assert!(matches!(
+                read_record_buf(&mut reader, &header, &mut buf, &mut record),
+                Err(e) if e.kind() == io::ErrorKind::UnexpectedEof
+            ));
+        }
+
+        Ok(())
+    }
 }
